@@ -98,6 +98,26 @@ def status_rule(ck, mod, fname, label):
           "entropy request asks for 32 bytes into the 32-byte field '%s' of the state" % (fld["name"] if fld else "?"),
           "entropy request does not ask for a full 32-byte seed into a 32-byte state field (buffer=%s+%s, size=%s)" % (base, off, szv),
           where=relpath(ec.where))
+    if fname != "tinyjambu_prng_init_user":
+        # later requests go to the source given at initialisation: the callback AND the user data stored in the state
+        mem_ = {m["name"]: m["offset"] for m in mod.composites[PRIV]["members"]}
+
+        def _field_of(v):
+            v = _t(v)
+            if ir.is_null(v) or v[0] in ("c", "n"):
+                return "null"
+            V = f.inst(v)
+            if V is not None and V.op == "load":
+                b_, o_ = ir.ptr_base(f, V.ops[0])
+                if b_ == ("a", 0) and o_ is not None:
+                    return [nm for nm, off_ in mem_.items() if off_ == o_][:1] or ["?"]
+            return None
+        got = (_field_of(ec.d["callee_op"]), _field_of(args[0]))
+        if None in got:
+            raise Broken("%s: the entropy request's callee / user data are not loads of state fields (a local copy?): not decided" % fname)
+        ck.ob(got == (["callback"], ["user_data"]), "R-C17-USABLE", fname, "request-source[%s]" % label,
+              "the request calls the stored callback with the stored user data", "the request is made through %s with user data %s, not through the callback and user data stored at initialisation" % got,
+              where=relpath(ec.where))
     key = ("i", ec.id)
     consts = fin.constants_compared(f, key)
     reps = fin.partition(consts, 64, extra=[32])
@@ -332,6 +352,28 @@ def same_rule(ck, mod, label):
     esc = ir.rets_reachable_avoiding(f, [s.id for s in sts])
     ck.ob(bool(sts) and not esc, "R-C17-USABLE", f.name, "callback-always-stored[%s]" % label,
           "the callback field is written on every path", "a path leaves the callback field unset (zero) after init", where=relpath(f.rets()[0].where))
+    # the user data of a caller-supplied callback is in the state at return (later reseeds hand it to the callback)
+    udoff = [m for m in members if m["name"] == "user_data"][0]["offset"]
+    uds, other = [], []
+    for s_ in f.insts:
+        if s_.op == "store" and ir.ptr_base(f, s_.ops[1]) == (("a", 0), udoff):
+            v = tuple(s_.ops[0])
+            V = f.inst(v)
+            if v == ("a", udi):
+                uds.append(s_)
+            elif V is not None and V.op in ("phi", "select") and any(tuple(x) == ("a", udi) for x in ([i_[0] for i_ in V.get("inc")] if V.op == "phi" else V.ops[1:])):
+                uds.append(s_)
+            elif ir.is_null(v) or v[0] in ("c", "n"):
+                pass
+            else:
+                other.append(s_)
+    if other:
+        raise Broken("tinyjambu_prng_init_user: the user data field is written with a value that is neither the parameter nor null (%s): not decided" % relpath(other[0].where))
+    esc = ir.rets_reachable_avoiding(f, [s_.id for s_ in uds], pruned_edges=nulledges)
+    ck.ob(not esc, "R-C17-USABLE", f.name, "user-data-stored[%s]" % label,
+          "with a callback given, its user data is stored in the state on every path",
+          "a path with a caller-supplied callback returns without its user data stored in the state: every later (explicit or automatic) reseed hands the callback a null context",
+          where=relpath((esc[0][0] if esc else f.rets()[0]).where))
     return n
 
 
